@@ -17,7 +17,7 @@ Definition run_c16 (case : list Z) : list Z :=
       let t := tally_of (atr (r_final r)) in
       [code_num (r_code r); t_alloc t; t_dealloc t; t_realloc t; t_zero t; t_mis t; zlen (t_heap t)] ++
       enc_list (sortZ (t_sizes t)) ++
-      enc_list (canon_drops (nth 1 case 0) okind (releases (r_events r)))
+      enc_list (canon_drops3 (nth 1 case 0) (right_kind case) okind (releases (r_events r)))
     else
       [match r_code r with RAllocErr => 1 | RUB => 2 | _ => 0 end]
   | None => [-1]
